@@ -571,9 +571,12 @@ func (g *gen) buildMessage(p *msgPlan) {
 			g.cls("key-field")
 		}
 		// flatten: a single message field pointing at a later plain object
-		if ft.class == "message" && card == "" && ft.msgIndex > p.index {
+		if ft.class == "message" && (card == "" || card == "optional") && ft.msgIndex > p.index {
 			tgt := g.msgs[ft.msgIndex]
 			if tgt.shape == "object" && tgt.canFlat && rapid.IntRange(0, 1).Draw(t, "flatten") == 0 && disjoint(p.clientNm, tgt.clientNm) {
+				if card == "optional" {
+					g.cls("flatten:optional-field") // the field sits in a synthetic oneof
+				}
 				opts = &descriptorpb.FieldOptions{}
 				if rapid.Bool().Draw(t, "flattenstyle") {
 					proto.SetExtension(opts, ext_j5pb.E_Field, &ext_j5pb.FieldOptions{Type: &ext_j5pb.FieldOptions_Message{Message: &ext_j5pb.MessageFieldOptions{Flatten: true}}})
@@ -640,6 +643,19 @@ func (g *gen) buildMessage(p *msgPlan) {
 		}
 		p.clientNm[jsonName(oname)] = true
 		g.cls("exposed-oneof")
+	}
+	if g.mode == Annotated && p.shape == "object" && rapid.IntRange(0, 7).Draw(t, "selfflatten") == 0 {
+		// a flattened reference to the message itself (a linked list inlined into its
+		// head): valid, and the flag is part of what re-import must keep
+		opts := &descriptorpb.FieldOptions{}
+		proto.SetExtension(opts, ext_j5pb.E_Field, &ext_j5pb.FieldOptions{Type: &ext_j5pb.FieldOptions_Message{Message: &ext_j5pb.MessageFieldOptions{Flatten: true}}})
+		name := fmt.Sprintf("again_%d", p.index)
+		d.Field = append(d.Field, &descriptorpb.FieldDescriptorProto{
+			Name: proto.String(name), JsonName: proto.String(jsonName(name)), Number: proto.Int32(nextNum()),
+			Type: descriptorpb.FieldDescriptorProto_TYPE_MESSAGE.Enum(), TypeName: proto.String(p.full),
+			Label: descriptorpb.FieldDescriptorProto_LABEL_OPTIONAL.Enum(), Options: opts,
+		})
+		g.cls("flatten:self")
 	}
 	// proto3 requires synthetic oneofs to come after real ones
 	reorderOneofs(d)
